@@ -38,6 +38,9 @@ GEN_QUICK = [("G2q", 2, "Q_Owners", "Q_Targets", ALLH, ALLD)]
 GEN_THOROUGH = [("G2", 2, "G_Owners", "G_Targets", ALLH, ALLD),
                 ("G3", 3, "T3_Owners", "T3_Targets", '{"A", "TXT"}', '{"NS", "NSG"}')]
 SIGN_MODES = ["none", "nsec", "nsec3"]
+# the same zones once more, stored in upper case (quick and thorough)
+REPLAY_MODES = SIGN_MODES + [m + "+mixed" for m in SIGN_MODES]
+RECORD_MODES = SIGN_MODES + ["none+mixed", "nsec+mixed"]
 
 
 def active_deviations(res):
@@ -107,10 +110,18 @@ def run_gen(wd, spec, devs):
     return name, gwd, nshards, n, st
 
 
+def mode_args(mode):
+    """mode = sign mode, optionally with "+mixed": stored case of the zone (metamorphic dimension: the letters of the
+    owner and RDATA names in the zone are upper case, half of the query names too; every response must be the same
+    up to letter case -- the projection folds case, the specification is evaluated on folded names)"""
+    sign, _, stored = mode.partition("+")
+    return ["--sign", sign] + (["--stored", stored] if stored else [])
+
+
 def replay_shard(gwd, i, mode, trace_every):
     cases = os.path.join(gwd, f"cases{i}.ndjson")
     verdicts = os.path.join(gwd, f"verdicts{i}.{mode}.ndjson")
-    args = ["replay", "--sign", mode]
+    args = ["replay"] + mode_args(mode)
     trace = None
     if trace_every:
         trace = os.path.join(gwd, f"trace{i}.{mode}.ndjson")
@@ -199,17 +210,18 @@ def run(res, tier, seed):
         for name, gwd, nshards, n, st in gen_results:
             res.states += st["distinct"]
             res.transitions += st["generated"]
-            for mode in SIGN_MODES:
+            for mode in REPLAY_MODES:
                 for i in range(nshards):
                     # every 40th zone of shard 0 also goes through the trace specification
                     jobs.append((name, mode, ex.submit(replay_shard, gwd, i, mode, 40 if i == 0 else 0)))
-        for mode in SIGN_MODES:
+        for mode in RECORD_MODES:
             tp = os.path.join(wd, f"random.{mode}.trace.ndjson")
             op = os.path.join(wd, f"random.{mode}.out")
             rec_traces.append((mode, tp, op))
             jobs.append(("record", mode, ex.submit(
                 vlib.run_driver, "drive_auth",
-                ["record", "--seed", str(seed), "--n", str(n_rand), "--queries", str(n_q), "--sign", mode, "--trace", tp],
+                ["record", "--seed", str(seed), "--n", str(n_rand if "+" not in mode else max(4, n_rand // 3)), "--queries", str(n_q),
+                 "--trace", tp] + mode_args(mode),
                 None, op, 3000)))
         results = [(a, b, f.result()) for a, b, f in jobs]
 
